@@ -55,6 +55,7 @@ func runSpace(c *vlib.Ctx, m mcConfig) (*space, error) {
 	if err != nil {
 		return nil, fmt.Errorf("PolicyMC/%s: %v", m.name, err)
 	}
+	sp.numeric = m.fam == "num"
 	chunks := (sp.wit.NItems + 5) / 6
 	if want := int64(1 + chunks + sp.wit.NItems); res.Distinct != want {
 		return nil, fmt.Errorf("PolicyMC/%s: %d states, expected %d (space not fully walked)", m.name, res.Distinct, want)
@@ -114,6 +115,7 @@ type tracePayload struct {
 	Sigs   []int  `json:"sigs"`
 	Pres   []int  `json:"pres"`
 	Garb   []int  `json:"garbage"`
+	Inst   int    `json:"class_member"`
 	V      bool   `json:"real_verify_accepts"`
 	Dec    bool   `json:"real_decoder_accepts"`
 	Origin string `json:"origin"`
@@ -121,7 +123,7 @@ type tracePayload struct {
 }
 
 func payloadOf(l *traceLine, why string) tracePayload {
-	return tracePayload{"trace", l.n.String(), l.env, l.h, l.t, l.sigs, l.pres, l.garb, l.v, l.dec, l.origin, why}
+	return tracePayload{"trace", l.n.String(), l.env, l.h, l.t, l.sigs, l.pres, l.garb, l.inst, l.v, l.dec, l.origin, why}
 }
 
 func keyOf(msg string) string {
@@ -134,6 +136,7 @@ func directionB(c *vlib.Ctx, envs []*env, r *rand.Rand, nRandom int, workers int
 	nLimits := len(lines) - nRandomCount(lines)
 	seen := map[string]bool{}
 	var nontriv, nAcc, nRej, nDeep, nDecRej, nOpaque, nUC int64
+	classLines := map[int]*[2]int64{} // lines with a parameter of a value class, by instantiated member: accepted, rejected
 	limitAcc, limitRej := 0, 0
 	for _, l := range lines {
 		if !inRange(l.n) || l.h < 0 || l.h > maxModelHeight {
@@ -184,6 +187,17 @@ func directionB(c *vlib.Ctx, envs []*env, r *rand.Rand, nRandom int, workers int
 		if l.n.K == "uc" {
 			nUC++
 		}
+		var u classUse
+		if l.n.classes(&u, false); u.any() {
+			if classLines[l.inst] == nil {
+				classLines[l.inst] = &[2]int64{}
+			}
+			if l.v {
+				classLines[l.inst][0]++
+			} else {
+				classLines[l.inst][1]++
+			}
+		}
 	}
 	if os.Getenv("VERIF_C14_CORRUPT") == "trace" && len(lines) > 200 {
 		// binding demonstration: one logged verdict is falsified; TLC must reject the line (and the
@@ -207,8 +221,17 @@ func directionB(c *vlib.Ctx, envs []*env, r *rand.Rand, nRandom int, workers int
 		if l.origin != "intended" && l.origin != "mutated" && l.origin != "other-context" {
 			class = l.origin
 		}
-		c.Violation("trace-"+keyOf(msg)+":"+class, fmt.Sprintf("%s: %.400s at height %d, time %d, signatures %v, preimages %v (Verify accepted: %v, decoder accepted: %v)",
-			msg, l.n.String(), l.h, l.t, l.sigs, l.pres, l.v, l.dec), payloadOf(l, msg))
+		prefix := "trace-"
+		dir := "accepts-unsatisfied"
+		if !l.v {
+			dir = "rejects-satisfied"
+		}
+		if ck := envs[l.env].withInst(l.inst).classKey(l.n, dir); ck != "" && class == "random" && !strings.Contains(msg, "decoder") {
+			// a parameter at the size of its machine type: the class member names the failing input class
+			prefix, class = "num-trace-", ck
+		}
+		c.Violation(prefix+keyOf(msg)+":"+class, fmt.Sprintf("%s: %.400s at height %d, time %d, signatures %v, preimages %v (Verify accepted: %v, decoder accepted: %v)",
+			msg, l.n.String(), l.h, l.t, l.sigs, l.pres, l.v, l.dec)+realOf(envs, l), payloadOf(l, msg))
 	}
 	c.Traces(1)
 	c.Count(int64(len(lines)), nontriv)
@@ -220,6 +243,7 @@ func directionB(c *vlib.Ctx, envs []*env, r *rand.Rand, nRandom int, workers int
 	c.Cov("trace_decoder_rejects", nDecRej)
 	c.Cov("trace_with_opaque", nOpaque)
 	c.Cov("trace_uc_lines", nUC)
+	c.Cov("trace_lines_with_value_class_by_member_accepted_rejected", classLines)
 	if len(lines) > 40 {
 		c.Sample(payloadOf(lines[len(lines)-1], ""))
 	}
@@ -228,7 +252,71 @@ func directionB(c *vlib.Ctx, envs []*env, r *rand.Rand, nRandom int, workers int
 			c.Infra("vacuity: direction B saw accepts=%d rejects=%d limit accepts=%d limit rejects=%d decoder rejects=%d opaque=%d uc=%d deep=%d",
 				nAcc, nRej, limitAcc, limitRej, nDecRej, nOpaque, nUC, nDeep)
 		}
+		var ca, cr int64
+		for k := 0; k < nInst && nRandom >= 1000; k++ {
+			v := classLines[k]
+			if v == nil || v[0]+v[1] == 0 {
+				c.Infra("vacuity: direction B: member %d of the value classes was never run", k)
+				continue
+			}
+			ca, cr = ca+v[0], cr+v[1]
+		}
+		if nRandom >= 1000 && (ca == 0 || cr == 0) {
+			c.Infra("vacuity: direction B: lines with a parameter of a value class: %d accepted, %d rejected", ca, cr)
+		}
 	}
+}
+
+// numericGuards: every member of every value class, for every numeric parameter of every policy
+// kind, and every directly representable boundary value was executed on the real code and compared
+// with TLC - with a case the specification accepts and one it rejects where it has both (a policy
+// with a revealed lock or count of class BIG is never satisfied: only rejections exist).
+func numericGuards(c *vlib.Ctx, door string, m map[string]*[2]int64) {
+	need := func(label string, acc, rej bool) {
+		v := m[label]
+		if v == nil {
+			v = &[2]int64{}
+		}
+		if (acc && v[0] == 0) || (rej && v[1] == 0) {
+			c.Infra("vacuity: %s: numeric extreme %s executed with %d cases the specification accepts and %d it rejects", door, label, v[0], v[1])
+		}
+	}
+	for _, v := range bigU64 {
+		need("above.h="+u64Names[v], false, true)
+		need("uc.lock="+u64Names[v], false, true)
+		need("uc.sigs="+u64Names[v], false, true)
+	}
+	for _, v := range bigI64 {
+		need("after.t="+i64Names[v], false, true)
+	}
+	for _, v := range negI64 {
+		need("after.t="+i64Names[v], true, true)
+	}
+	need("above.h=0", true, true)
+	need("uc.lock=0", true, true)
+	need("uc.sigs=0", true, true)
+	need("uc.sigs=len", true, true)
+	need("uc.sigs=len+1", false, true)
+	need("uc.sigs=255", false, true)
+	need("uc.sigs=256", false, true)
+	need("uc.keys=0", true, true)
+	need("uc.keys=1", true, true)
+	need("uc.keys=2", true, true)
+	need("thresh.n=0", true, true)
+	need("thresh.n=len", true, true)
+	need("thresh.n=len+1", false, true)
+	need("thresh.n=255", false, true)
+}
+
+// realOf prints the real policy of a line that carries a parameter of a value class.
+func realOf(envs []*env, l *traceLine) string {
+	var u classUse
+	if l.n.classes(&u, true); !u.any() {
+		return ""
+	}
+	out := ""
+	vlib.Recover(func() { out = fmt.Sprintf(" [B/N = class member %d: %.300s]", l.inst, envs[l.env].withInst(l.inst).policy(l.n).String()) })
+	return out
 }
 
 func nRandomCount(lines []*traceLine) int {
@@ -264,9 +352,11 @@ func main() {
 			{name: "wide", fam: "all", wide: 1, maxSigs: 3, maxPres: 2, stride: 1, offset: 0, workers: 8},
 			{name: "pre3", fam: "all", wide: 0, maxSigs: 3, maxPres: 3, stride: 3, offset: int(c.Seed % 3), workers: 4},
 			{name: "uc4", fam: "uc", wide: 0, maxSigs: 4, maxPres: 1, ucLen: 4, stride: 1, workers: 4},
+			{name: "num", fam: "num", wide: 1, maxSigs: 3, maxPres: 2, stride: 1, workers: 6},
 		}
 	} else {
-		cfgs = []mcConfig{{name: "quick", fam: "all", wide: 0, maxSigs: 3, maxPres: 2, stride: 2, offset: int(c.Seed % 2), workers: 8}}
+		cfgs = []mcConfig{{name: "quick", fam: "all", wide: 0, maxSigs: 3, maxPres: 2, stride: 2, offset: int(c.Seed % 2), workers: 8},
+			{name: "num", fam: "num", wide: 0, maxSigs: 3, maxPres: 1, stride: 1, workers: 4}}
 	}
 	for i := range cfgs {
 		if cfgs[i].offset < 0 {
@@ -277,6 +367,13 @@ func main() {
 		}
 	}
 	st := newStats()
+	phase := map[string]float64{}
+	var phaseMu sync.Mutex
+	took := func(name string, since time.Time) {
+		phaseMu.Lock()
+		phase[name] = time.Since(since).Seconds()
+		phaseMu.Unlock()
+	}
 	spaces := make([]*space, len(cfgs))
 	var wg sync.WaitGroup
 	var emu sync.Mutex
@@ -285,7 +382,9 @@ func main() {
 		wg.Add(1)
 		go func(i int, m mcConfig) {
 			defer wg.Done()
+			t0 := time.Now()
 			sp, err := runSpace(c, m)
+			took("tlc_"+m.name, t0)
 			if err != nil {
 				emu.Lock()
 				errs = append(errs, err.Error())
@@ -302,15 +401,25 @@ func main() {
 					}
 				}
 			}
+			t0 = time.Now()
 			replaySpace(c, sp, envs, st, c.Seed)
+			took("replay_"+m.name, t0)
+			if sp.numeric && c.NViolations() < 12 {
+				// every row of the numeric family through ValidateV2Transaction as well
+				t0 = time.Now()
+				replayConsensusNum(c, sp, 1000000, st, rand.New(rand.NewSource(c.Seed*131+7)))
+				took("consensus_numeric", t0)
+			}
 		}(i, m)
 	}
 	// ---- direction B runs while TLC enumerates ------------------------------------------------
 	wg.Add(1)
 	go func() {
 		defer wg.Done()
+		t0 := time.Now()
 		directionB(c, envs, rand.New(rand.NewSource(c.Seed*31+5)), c.Pick(3000, 40000), 4)
 		decoderBomb(c)
+		took("direction_b", t0)
 	}()
 	wg.Wait()
 	if len(errs) > 0 {
@@ -330,9 +439,12 @@ func main() {
 	c.Cov("tlc_verifyalg_eq_meaning_cases", tlcCases)
 
 	// ---- the same rows through consensus ---------------------------------------------------------
+	t0 := time.Now()
 	if c.NViolations() < 12 {
 		replayConsensus(c, spaces, c.Pick(1500, 12000), st, r)
 	}
+	took("consensus", t0)
+	c.Cov("phase_seconds", phase)
 
 	// ---- evidence and vacuity ----------------------------------------------------------------------
 	c.Traces(st.rowsReplayed)
@@ -355,6 +467,17 @@ func main() {
 	c.Cov("policies_whose_verdict_flips_across_contexts", st.lockFlip)
 	c.Cov("rows_by_context", st.ctxUsed)
 	c.Cov("rows_by_environment", st.envUsed)
+	c.Cov("numeric_cases_with_instantiated_class", st.numCases)
+	c.Cov("numeric_row_replays", st.numReplays)
+	c.Cov("numeric_extremes_verify_accepted_rejected", st.num)
+	c.Cov("numeric_extremes_consensus_accepted_rejected", st.consNum)
+	if c.NViolations() == 0 {
+		numericGuards(c, "Verify", st.num)
+		numericGuards(c, "ValidateV2Transaction", st.consNum)
+		if st.numCases == 0 || st.numReplays == 0 || st.consNumRows == 0 {
+			c.Infra("vacuity: numeric family: %d cases with an instantiated class, %d row replays, %d consensus rows", st.numCases, st.numReplays, st.consNumRows)
+		}
+	}
 	if c.NViolations() == 0 {
 		for _, k := range []string{"above", "after", "pk", "hash", "opaque", "thresh", "uc"} {
 			if st.acceptKind[k] == 0 && k != "uc" {
@@ -443,7 +566,7 @@ func replayFile(c *vlib.Ctx, envs []*env) {
 		if err != nil {
 			c.Fatal("replay: %v", err)
 		}
-		l := &traceLine{n: markReal(n), h: tp.H, t: tp.T, sigs: tp.Sigs, pres: tp.Pres, garb: tp.Garb, env: tp.Env, origin: tp.Origin}
+		l := &traceLine{n: markReal(n), h: tp.H, t: tp.T, sigs: tp.Sigs, pres: tp.Pres, garb: tp.Garb, env: tp.Env, inst: tp.Inst, origin: tp.Origin}
 		hang, pan, detail := execLine(l, envs, 30*time.Second)
 		if hang || pan || detail != "" {
 			still(true, fmt.Sprintf("hang=%v panic=%v %s", hang, pan, detail))
